@@ -14,7 +14,8 @@ SPEC = dict(
                "register j = max over all merged coupons folded to slot j mod 2^lg with lg = min(lg_max, lg_k of the "
                "non-empty array-mode inputs); c03_union_order_independent -- any order, any repetition, any concrete "
                "representation of the same set of abstract inputs gives the same lg_k / mode / coupons / registers "
-               "(commutative, idempotent); c03_to_sketch_type_independent -- to_sketch(Hll4/6/8) agree on registers, "
+               "(commutative, idempotent); c03_union_associative -- to_sketch(t) of one union merged into another with further inputs shows "
+               "the same state as a single union of everything; c03_to_sketch_type_independent -- to_sketch(Hll4/6/8) agree on registers, "
                "out-of-order flag and all estimator inputs (so estimate and bounds are bit-identical) and the result is "
                "again a well-formed source representing the Spec state (unions compose); c03_union_nonzero_partial -- an "
                "out-of-order source always leaves an out-of-order gadget with a non-zero register. The two defects D2/D3 "
@@ -26,9 +27,7 @@ SPEC = dict(
     level_note="PARTIAL in one respect: 'a union of non-empty inputs never reports an estimate of zero' is proved only "
                "structurally (c03_union_nonzero_partial: flag propagation + non-zero register); that the composite / HIP "
                "VALUE is > 0 needs float positivity and the ln-based composite estimator, which is not modelled -- it is "
-               "checked on the crate by the oracle for every generated case. Associativity is available as the two pieces "
-               "(to_sketch result is a well-formed source representing the union's Spec state; c03_union_refines holds for "
-               "arbitrary such sources), not as one packaged equation. kxq0/kxq1 after rebuild_cached_values are float sums "
+               "checked on the crate by the oracle for every generated case. kxq0/kxq1 after rebuild_cached_values are float sums "
                "in slot order: mirrored bit-for-bit by the model and tied by correspondence, no rounding analysis. "
                "Deserialized inputs are represented in the correspondence run by array-mode sketches round-tripped through "
                "serialize/deserialize with the OUT_OF_ORDER flag forced (what Java/C++ unions emit); list-mode images are "
